@@ -107,7 +107,7 @@ fn check_prog(prog: &T, env: &T, flagsets: &[ClvmFlags], faults: bool, acc: &mut
 
 fn check_ops(ctx: &Ctx, rep: &mut Report) {
     // operators called directly: every opcode x argument lists of arity <= 2|3 over A12 + pair + big, proper and improper
-    let mut alpha: Vec<T> = atoms_t(&ctx.pick(a6(), a12()));
+    let mut alpha: Vec<T> = atoms_t(&a12());
     alpha.push(cons(atom(&[1]), atom(&[2])));
     alpha.push(atom(&big_atom(300)));
     alpha.push(atom(&g1_gen()));
@@ -245,7 +245,7 @@ pub fn run(ctx: &Ctx) -> Report {
     let flagsets: Vec<ClvmFlags> = vec![ClvmFlags::empty(), MEMPOOL_MODE, ClvmFlags::ENABLE_GC, ClvmFlags::NEW_COST_MODEL, all_bits];
     let ops = { let mut o = all_single_byte_ops(); o.extend(multibyte_ops()); o };
     let spaces: Vec<(ProgSpace, bool)> = vec![
-        (p1("P1", ops.clone(), ctx.pick(a6(), a12()), vec![vec![2u8], vec![5], vec![11]], ctx.pick(2, 3)), false),
+        (p1("P1", ops.clone(), a12(), vec![vec![2u8], vec![5], vec![11]], ctx.pick(2, 3)), false),
         (p1b(ops.clone(), 2), false),
         (p_raw(ops, a6()), false),
         (p2(classic_ops(), ctx.pick(vec![vec![1], vec![0x80]], vec![vec![], vec![1], vec![0x80]])), false),
